@@ -72,6 +72,15 @@ class Run:
         self.not_counted = []
 
     def build(self):
+        # the concrete checks must import the SAME tree that is being verified
+        from . import source as _source
+        if _source.REPO_SRC in sys.path:
+            sys.path.remove(_source.REPO_SRC)
+        sys.path.insert(0, _source.REPO_SRC)
+        for mname in [m for m in sys.modules if m == 'zeroconf' or m.startswith('zeroconf.')]:
+            f = getattr(sys.modules[mname], '__file__', '') or ''
+            if not f.startswith(_source.REPO_SRC):
+                del sys.modules[mname]
         mod = importlib.import_module('contracts.' + self.prop.lower())
         self.mod = mod
         R = Registry()
